@@ -36,7 +36,7 @@ def shards(tier):
 
 def required_counters(tier):
     d = {"transform." + t: 50 for t in TRANSFORMS}
-    d.update({"eager.accept": 50, "eager.reject": 50, "value_independence": 100, "pytree_args": 20, "tracer_checks_observed": 500, "oracle_crosscheck": 100, "param_named_like_symbolic_name": 30, "question.cases": 50})
+    d.update({"eager.accept": 50, "eager.reject": 50, "value_independence": 100, "pytree_args": 20, "tracer_checks_observed": 500, "oracle_crosscheck": 100, "param_named_like_symbolic_name": 30, "question.cases": 50, "dict.cases": 50, "rechecked_after_warmup": 100})
     return d
 
 
@@ -117,10 +117,21 @@ def run_case(rec, rng, rngkey=None):
     import typeguard
 
     sig = GS.gen_signature(rng, max_params=3, p_ret=0.8, allow_symbolic=True)
-    shapes, retshape = GS.gen_values(rng, sig, p_perturb=0.45)
-    shapes = [[max(s, 1) for s in sh] for sh in shapes]  # vmap/grad dislike size-0 axes; sizes >= 1
-    if retshape is not None:
-        retshape = [max(s, 1) for s in retshape]
+    # a consistent tuple first (used as warm-up of the same function), the tested tuple is a copy of it
+    # with ONE value changed: every other value - e.g. the one under a symbolic annotation - keeps its shape
+    base_shapes, base_ret = GS.gen_values(rng, sig, p_perturb=0.0)
+    base_shapes = [[max(s, 1) for s in sh] for sh in base_shapes]
+    base_ret = [max(s, 1) for s in base_ret] if base_ret is not None else None
+    shapes = [list(sh) for sh in base_shapes]
+    retshape = list(base_ret) if base_ret is not None else None
+    if rng.random() < 0.55:
+        i = rng.randrange(len(shapes) + (1 if retshape is not None else 0))
+        tgt = shapes[i] if i < len(shapes) else retshape
+        if tgt:
+            j = rng.randrange(len(tgt))
+            tgt[j] = rng.choice([z for z in (1, 2, 3, 4, 5) if z != tgt[j]])
+        else:
+            tgt.append(2)
     if rng.random() < 0.25:
         # a scalar-array parameter whose NAME also occurs in a symbolic axis without being an axis:
         # the name is unbound (AnnotationError, eagerly and traced alike) - the parameter's VALUE must
@@ -180,6 +191,22 @@ def run_case(rec, rng, rngkey=None):
 
         z = mkargs("zeros")
         eager, _, _ = attempt(lambda: f(*z))
+        # warm-up of the SAME decorated function with other sizes (whatever it answers), then again:
+        # the verdict for the original arguments must not have changed, eagerly or traced
+        try:
+            for wshapes in (base_shapes, [[d + 2 for d in sh] for sh in shapes]):
+                warm = []
+                for n_, sh in zip(names, wshapes):
+                    a_ = jax.device_put(np.zeros(sh, dtype="float32"))
+                    warm.append([a_, a_] if n_ == tree_param else a_)
+                attempt(lambda: f(*warm))
+                attempt(lambda: jax.jit(f)(*warm))
+        except Exception:
+            pass
+        eager2, _, _ = attempt(lambda: f(*z))
+        rec.count("rechecked_after_warmup")
+        if eager2 != eager:
+            rec.violation("history-dependence", case, f"eager verdict {eager} became {eager2} after the same function was called with other sizes", mechanism="verdict-changes-after-warmup")
         rec.count("eager." + (eager if eager in ("accept", "reject") else "other"))
         if oracle in ("sat", "unsat") and eager in ("accept", "reject"):
             rec.count("oracle_crosscheck")
@@ -292,6 +319,57 @@ def run_question_case(rec, rng, rngkey):
                 rec.violation("trace-vs-eager", dict(case, transform=t), f"'?' axes, same object at two leaves: {t} {v}, eager {eager}", mechanism=f"question-trace-{v.split(':')[0]}-eager-{eager}")
 
 
+def run_dict_case(rec, rng, rngkey):
+    """a dict of arrays sharing a broadcastable variadic axis: jit/grad/eval_shape hand the entries over in
+    sorted-key order, an eager call in insertion order - the verdict is order-free by the property"""
+    import beartype
+    import jax
+    import jax.numpy as jnp
+    import typeguard
+
+    import jaxtyping
+    from jaxtyping import jaxtyped
+
+    from ..model import dims as MD
+
+    keys = rng.sample(["z", "a", "m", "k", "b"], rng.choice((3, 3, 4)))
+    shapes = {k: rng.choice(((1,), (3,), (4,), (1, 3), (2, 3), (2, 1), ())) for k in keys}
+    spec = rng.choice(("*#b", "*#b", "*#b 2"))
+    d = {k: jax.device_put(np.zeros(shapes[k] + ((2,) if spec.endswith("2") else ()), dtype="float32")) for k in keys}
+    acc = ()
+    sat = True
+    for k in keys:
+        acc = MD.broadcast_shapes(acc, shapes[k])
+        if acc is None:
+            sat = False
+            break
+    expect = "accept" if sat else "reject"
+    ann = dict[str, jaxtyping.Float[jax.Array, spec]]
+    for cname, checker in (("typeguard", typeguard.typechecked), ("beartype", beartype.beartype)):
+        ns = {"__name__": "jtv_c17_generated", "T_d": ann, "jnp": jnp, "jax": jax}
+        real.exec_src("def f(d: T_d):\n    return sum(jnp.sum(v) for v in d.values())\n", ns)
+        f = jaxtyped(typechecker=checker)(ns["f"])
+
+        def attempt(thunk):
+            try:
+                thunk()
+                return "accept"
+            except Exception as e:  # noqa
+                return classify(e)
+
+        eager = attempt(lambda: f(d))
+        case = {"dict_case": True, "keys_in_insertion_order": keys, "shapes": {k: list(v) for k, v in shapes.items()}, "spec": spec, "checker": cname, "rngkey": rngkey}
+        rec.count("dict.cases")
+        rec.case(("dict", tuple(keys), tuple(shapes[k] for k in keys), spec, cname), True)
+        if cname == "typeguard" and eager != expect:
+            rec.violation("eager-vs-oracle", case, f"dict entries {[(k, shapes[k]) for k in keys]} against '{spec}': eager {eager}, order-free oracle {expect}", mechanism=f"dict-eager-{eager}-oracle-{expect}")
+        for t, thunk in (("jit", lambda: jax.jit(f)(d)), ("eval_shape", lambda: jax.eval_shape(f, d)), ("grad", lambda: jax.grad(f)(d))):
+            v = attempt(thunk)
+            rec.count("transform." + t)
+            if v != eager:
+                rec.violation("trace-vs-eager", dict(case, transform=t), f"dict argument: {t} {v}, eager {eager} (same shapes and dtypes, entries reordered by jax)", mechanism=f"dict-trace-{v.split(':')[0]}-eager-{eager}")
+
+
 def run_shard(rec, seed, shard, tier):
     import jax
 
@@ -302,6 +380,8 @@ def run_shard(rec, seed, shard, tier):
         run_case(rec, random.Random(key), rngkey=key)
         if k % 4 == 0:
             run_question_case(rec, random.Random(key + "/q"), key + "/q")
+        if k % 4 == 1:
+            run_dict_case(rec, random.Random(key + "/d"), key + "/d")
     r = random.Random(f"{seed}/C17/{shard['i']}/0")
     s = GS.gen_signature(r, max_params=3, p_ret=0.8)
     rec.sample({"sig": s, "transforms": TRANSFORMS})
@@ -310,7 +390,9 @@ def run_shard(rec, seed, shard, tier):
 def replay(rec, case):
     warnings.filterwarnings("ignore")
     install_spy()
-    if case.get("question_case"):
+    if case.get("dict_case"):
+        run_dict_case(rec, random.Random(case["rngkey"]), case["rngkey"])
+    elif case.get("question_case"):
         run_question_case(rec, random.Random(case["rngkey"]), case["rngkey"])
     else:
         run_case(rec, random.Random(case["rngkey"]), rngkey=case["rngkey"])
